@@ -83,6 +83,16 @@ fn check(rep: &Report, acc: &mut Acc, d: &Desc, rank: u64, total_consistent_with
     // what the real encapsulator emits for the same fields
     let enc_bytes: Option<Vec<u8>> = match d.kind {
         Kind::Complete => {
+            // the same description is what an encapsulator emits with re-use disabled and with re-use enabled but the
+            // consecutive-re-use limit reached for this very label (the full label is due again)
+            if l.is_addr() && d.payload.len() <= 8 {
+                let mut enc = crate::sender::build_prior(DefaultCrc {}, crate::sender::Prior::SameAtMax, l);
+                let mut b = vec![0u8; want.len() + 3];
+                match do_encap(&mut enc, &d.payload, 0, d.type_field, l, &mut b) {
+                    EncOut::Completed(n) if b[..n.min(b.len())] == bytes[..] => {}
+                    other => viol(rep, &format!("C20|generate-vs-encapsulator|{}|at-reuse-limit|{}", kn, other.class()), rank, format!("an encapsulator at its consecutive-re-use limit for this label answers {:?} where the full-label packet {} is due", other, hexs(&bytes[..bytes.len().min(24)])), d),
+                }
+            }
             let mut enc = Encapsulator::new(DefaultCrc {});
             enc.disable_re_use_label();
             let mut b = vec![0u8; want.len() + 3];
